@@ -57,6 +57,8 @@ def draw_pars(rnd):
 class C01(object):
     id = "C01"
     engine = "simomp"
+    time_keys = {"steps": "scheduler steps (one per instrumented access, GOMP entry or allocator call)"}
+    fault_keys = ["switches", "realloc_moved", "realloc_stay", "alloc", "free", "parallel_runs", "np_empty_garbage_buffers", "history_runs(in-place parameter edit between updates)"]
     tiers = {"quick": {"runs": 5000, "budget_s": 55, "selftest_every": 50, "fresh_selftest": 6},
              "thorough": {"runs": 600000, "budget_s": 800, "selftest_every": 300, "fresh_selftest": 12}}
     rule = ("one run = (parameter set drawn swarm style, 1..3000 peaks with counts on team*k and team*k+-1, team 1..32 "
